@@ -8,7 +8,7 @@ INFO = {
                   'dense offline visitor / online operations incl. predicate_operation (as C04/C05)'],
     'bounds': {'quick': 'pastified online monitors of bounded-future F1 and until/unless/eventually/always nestings: sign at step i vs sat at i-h, N=h+3; sign: iff/xor-free F1 over predicate atoms x bounds x N in 2,3,5 (offline, online for past formulas), sample of F2; inductive step per operator '
                         'with arbitrary operand values and operand truths constrained only by soundness, N in 1..4; magnitude: F1/F2 over x~c atoms with a second '
-                        'symbolic trace within |rho|; dense time: unary temporal/Boolean operators over one-variable predicates at symbolic tau, n<=3; bounds with a >= 2 (instants at which the whole window lies before the trace); inductive step on the notation cases of vf/pool.py',
+                        'symbolic trace within |rho|; dense time: unary temporal/Boolean operators over one-variable predicates at symbolic tau, n<=3; bounds with a >= 2 (instants at which the whole window lies before the trace); inductive step on the notation cases of vf/pool.py; punctual windows [1,1], [2,2] of all seven bounded operators (sign and step)',
                'thorough': 'F2 exhaustive, F3 seeded, N up to 7; dense n=4; QF_FP bridging lemma'},
     'outside': 'iff/xor (excluded by the property); dense-time since/until; float rounding except the bridging lemma fp.sub(x,c)>0 <=> x>c (thorough tier)',
     'assumptions': ['Boolean semantics of STL as in the README with weak prev/next, strong s_prev/s_next'],
